@@ -68,8 +68,8 @@ CLAIMED["C09"] = (
 
 CLAIMED["C01"] = (
     "SX: atoms.py executed from its transformed source with symbolic integer indices and slice bounds (Python-level dispatch and index arithmetic explored symbolically, concretised by forking at the numpy boundary); operation histories by solver-driven case split; list-of-atoms reference model",
-    "Bounded model checking of AtomArray/AtomArrayStack: every index form (int, slice with symbolic bounds -5..5 and steps, masks, index arrays, ellipsis, all two-dimensional stack forms) on 3 atoms x 2 models with and without bonds/box gives the result of the list-of-atoms model; every operation sequence of length 2 (3) over 10 operations keeps annotation arrays, coordinates, boxes and the bond list consistent with the model (lengths/depths checked after each step), copies (array, stack, Atom) are equal and independent.",
-    "Trusted: numpy's own indexing (the model resolves indices with Python list semantics), the compiled BondList, SInt model, z3. Outside: more than 3 atoms / 2 models / 3 steps, annotation dtypes beyond int/str, NaN coordinates, integer indices outside the valid range (not accepted by numpy).",
+    "Bounded model checking of AtomArray/AtomArrayStack: every index form (int, slice with symbolic bounds -5..5 and steps, masks, index arrays, ellipsis, all two-dimensional stack forms) on 3 atoms x 2 models with and without bonds/box gives the result of the list-of-atoms model; every operation sequence of length 2 (3) over 13 operations keeps annotation arrays, coordinates, boxes and the bond list consistent with the model (lengths/depths checked after each step), copies (array, stack, Atom) are equal and independent.",
+    "Trusted: numpy's own indexing (the model resolves indices with Python list semantics), the compiled BondList, SInt model, z3. Outside: more than 3 atoms / 2 models / 3 steps, NaN coordinates, integer indices outside the valid range (not accepted by numpy).",
     "DESIGN.md §4 C01")
 
 CLAIMED["C17"] = (
